@@ -79,6 +79,8 @@ impl HLCTimestamp {
     /// This internally gets the current UNIX timestamp in seconds.
     pub fn now(counter: u16, node: u8) -> Self {
         let duration = get_datacake_timestamp();
+        #[cfg(datacake_verif)]
+        let duration = verif::wall_for(node).unwrap_or(duration);
         Self::new(duration, counter, node)
     }
 
@@ -152,6 +154,8 @@ impl HLCTimestamp {
     /// for transmission to another system.
     pub fn send(&mut self) -> Result<Self, TimestampError> {
         let ts = get_datacake_timestamp();
+        #[cfg(datacake_verif)]
+        let ts = verif::wall_for(self.node()).unwrap_or(ts);
 
         let ts_old = self.datacake_timestamp();
         let c_old = self.counter();
@@ -185,6 +189,8 @@ impl HLCTimestamp {
         }
 
         let ts = get_datacake_timestamp();
+        #[cfg(datacake_verif)]
+        let ts = verif::wall_for(self.node()).unwrap_or(ts);
 
         // Unpack the message wall time/counter
         let ts_msg = msg.datacake_timestamp();
@@ -346,6 +352,32 @@ pub fn get_datacake_timestamp() -> Duration {
 
     let (seconds, fractional) = duration_to_parts(duration - DATACAKE_EPOCH);
     parts_as_duration(seconds, fractional)
+}
+
+#[cfg(datacake_verif)]
+/// Verification-only injectable wall clock (cfg(datacake_verif)).
+pub mod verif {
+    use std::cell::RefCell;
+    use std::time::Duration;
+
+    type WallFn = Box<dyn Fn(u8) -> Option<Duration>>;
+
+    thread_local! {
+        static WALL: RefCell<Option<WallFn>> = RefCell::new(None);
+    }
+
+    /// Installs (or clears) the wall clock seen by HLCs on this thread.
+    pub fn set_wall(f: Option<WallFn>) {
+        WALL.with(|w| *w.borrow_mut() = f);
+    }
+
+    pub(crate) fn wall_for(node: u8) -> Option<Duration> {
+        WALL.with(|w| w.borrow().as_ref().and_then(|f| f(node))).map(|d| {
+            // Same loss of resolution as `get_datacake_timestamp`.
+            let (seconds, fractional) = super::duration_to_parts(d);
+            super::parts_as_duration(seconds, fractional)
+        })
+    }
 }
 
 #[cfg(test)]
